@@ -108,7 +108,7 @@ package poseidon
 //@   requires chipok(c.Gl) && canonState(input)
 //@   reveal sp_add_prc
 //@   ensures canonState(res)
-//@   ensures res == sp_poseidon(input)
+//@   ensures[local] res == sp_poseidon(input)
 
 // ================================================================== BN254 Poseidon (width 4, 8 full + 56 partial rounds)
 // Specification transcribed from the in-repo reference crypto/plonky2_bn128/src/poseidon_bn128.rs
@@ -144,7 +144,7 @@ package poseidon
 //@   props C10
 //@   circuit
 //@   reveal bn_p0 bn_p1 bn_p2 bn_p3
-//@   ensures res == bn_perm(state)
+//@   ensures[local] res == bn_perm(state)
 //@   ensures res == bn_pt(state)
 
 //@ func (c *BN254Chip) TwoToOne(left BN254HashOut, right BN254HashOut) (res BN254HashOut)
